@@ -144,7 +144,7 @@ pub fn run(rep: &Report) {
         run_digests: Mutex::new(HashSet::new()),
         dup: Mutex::new(None),
     };
-    let (n, d) = if quick { (4, 3) } else { (5, 4) };
+    let (n, d) = if quick { (4, 3) } else { (6, 4) };
     let ts = trees(n, d);
     let mut items = vec![];
     for (ti, t) in ts.iter().enumerate() {
